@@ -8,7 +8,8 @@ from ..rules_flow import forwarding, param_reaches_returns
 from .. import rules_tab as rt
 from .common import add_fwd, add_ret, add_checks, calls_in, ret_tags
 from .common import check as ob
-from ..canon import Canon, localise, each
+from ..canon import Canon, localise, each, returned
+from ..guards import GuardEval, UNK, specialise, resolve
 
 EXPLANATION = (
     'Decides: (a) the five non-`fragment` return types append exactly the projections of the Fragment the '
@@ -85,7 +86,7 @@ class _SelfSubst(ast.NodeTransformer):
 
 def build_func(program) -> FuncInfo:
     """_build_fragments with the span loop variable spelled `span` (whatever it is called in the source)"""
-    return localise(program.func(BUILD), {'span': each('spans')})
+    return localise(program.func(BUILD), {'span': each('spans'), 'frags': returned()})
 
 
 def projections(ctx, rep, clause):
@@ -129,32 +130,21 @@ def projections(ctx, rep, clause):
         'mass-label': f"({expect['mass']}, {expect['label']})",
         'mz-label': f"({expect['mz']}, {expect['label']})",
     }
-    branches = return_type_branches(f)
     n = 0
-    for rtype, body in branches.items():
-        if rtype == 'fragment':
-            continue
-        if rtype not in want:
-            continue
+    for rtype in want:
+        appended_all, local, first = return_type_path(f, rtype)
+        if not appended_all:
+            continue  # reported by the exhaustiveness rule
         n += 1
-        appended = None
-        local = {}
-        for st in body:
-            if isinstance(st, ast.Assign) and len(st.targets) == 1 and isinstance(st.targets[0], ast.Name):
-                local[st.targets[0].id] = st.value
-            for x in ast.walk(st):
-                if isinstance(x, ast.Call) and isinstance(x.func, ast.Attribute) and x.func.attr == 'append' and x.args:
-                    appended = x.args[0]
-        if appended is None:
-            raise AnalysisError(f"_build_fragments: nothing appended for return_type == '{rtype}'")
         env = dict(aliases)
         env.update(local)
-        got = inline(appended, env)
+        gots = sorted({inline(a, env) for a in appended_all})
+        got = gots[0] if len(gots) == 1 else ' | '.join(gots)
         ob(rep, 'PROJ', BUILD, f"return_type '{rtype}' appends the projection of the Fragment", got == want[rtype],
            f'{got[:90]}',
            f"for return_type '{rtype}' the function appends `{got}` but the corresponding projection of the Fragment "
            f"built for return_type 'fragment' is `{want[rtype]}`: the return types do not describe the same ions",
-           f.loc(body[0]), clause, {'appended': got, 'projection': want[rtype]})
+           f.loc(first), clause, {'appended': got, 'projection': want[rtype]})
     rep.floor('PROJ', 'alternative return types compared', n, 5)
 
 
@@ -192,6 +182,78 @@ def loss_sequence(ctx, rep, clause):
        'slice(span[0], span[1])', 'the fragment sequence fields are not the slice of the span', f.loc(), clause)
 
 
+def loss_combinations(ctx, rep, clause):
+    """get_losses: combined losses of every size 2..max_losses are enumerated whenever max_losses > 1 -- the guards
+    around the combinations loop are decided over the finite set (max_losses M in 2..4) x (L matching sites in 2..5);
+    sizes larger than L simply yield no combination, so no guard on L versus M is needed (or sound)"""
+    program = ctx.program
+    f = program.func(f'{FR}:get_losses')
+    c = Canon(f.node)
+    combos = [x for x in walk_own(f.node) if isinstance(x, ast.Call) and norm_stmt(x.func) in
+              ('itertools.combinations', 'combinations')]
+    if len(combos) != 1 or len(combos[0].args) != 2:
+        raise AnalysisError('get_losses: the itertools.combinations(<sites>, <size>) call was not found')
+    sites, size = combos[0].args
+    loop = None
+    for x in walk_own(f.node):
+        if isinstance(x, ast.For) and isinstance(size, ast.Name) and isinstance(x.target, ast.Name) and \
+                x.target.id == size.id:
+            loop = x
+    rng = norm_stmt(loop.iter).replace(' ', '') if loop is not None else ''
+    ob(rep, 'EXH', f.fq, 'combination sizes range over 2..max_losses', rng == 'range(2,max_losses+1)', rng,
+       f'sizes are taken from `{rng}`: some number of simultaneous losses between 2 and max_losses is never produced',
+       f.loc(loop) if loop is not None else f.loc(), clause)
+    from ..guards import dominating_tests, preceding_exits
+    anchor = loop if loop is not None else combos[0]
+    tests = list(dominating_tests(f.node, anchor)) + [(t, False) for t in preceding_exits(f.node.body, anchor)]
+    sites_txt = norm_stmt(sites)
+    bad = None
+    for M in (2, 3, 4):
+        for L in (2, 3, 4, 5):
+            ge = GuardEval({'max_losses': M, f'len({sites_txt})': L, sites_txt: [0] * L}, c.aliases())
+            for t, pol in tests:
+                v = ge.eval(t)
+                if v is not UNK and bool(v) != pol and bad is None:
+                    bad = (M, L, norm_stmt(t))
+    ob(rep, 'EXH', f.fq, 'the combinations are enumerated whenever max_losses > 1', bad is None,
+       f'{len(tests)} guard(s) decided for max_losses in 2..4 and 2..5 matching sites',
+       f'with max_losses={bad[0] if bad else ""} and {bad[1] if bad else ""} matching sites the guard `{bad[2] if bad else ""}` '
+       f'skips the enumeration: double losses that do exist are not returned', f.loc(anchor), clause)
+    ob(rep, 'EXH', f.fq, 'combinations are drawn from the per-site list (one entry per matching site)',
+       c.is_local(sites_txt) and sites_txt in {norm_stmt(getattr(x.func, 'value', x)) for x in walk_own(f.node)
+                                              if isinstance(x, ast.Call) and isinstance(x.func, ast.Attribute)
+                                              and x.func.attr == 'append'}, sites_txt,
+       f'combinations are drawn from `{sites_txt}`, which is not the list that receives one entry per matching site: '
+       f'two losses at two different sites would be merged or missed', f.loc(combos[0]), clause)
+
+
+def return_type_path(f: FuncInfo, rtype: str):
+    """what the function appends when return_type == rtype: the statement list is specialised under that value
+    (branches whose test is decided are pruned, conditional expressions resolved), so `==` chains, `in (...)` tests
+    and merged branches are all read the same way.  -> (appended expressions, locals assigned on that path, first
+    statement for the report)"""
+    ge = GuardEval({'return_type': rtype})
+    stream = list(specialise(f.node.body, ge))
+    ge = GuardEval({'return_type': rtype})
+    counts: Dict[str, int] = {}
+    vals: Dict[str, ast.AST] = {}
+    appended, first = [], None
+    for st in stream:
+        if isinstance(st, ast.Assign) and len(st.targets) == 1 and isinstance(st.targets[0], ast.Name):
+            counts[st.targets[0].id] = counts.get(st.targets[0].id, 0) + 1
+            vals[st.targets[0].id] = resolve(st.value, ge)
+        for x in ast.walk(st):
+            if isinstance(x, ast.Call) and isinstance(x.func, ast.Attribute) and x.func.attr == 'append' and x.args and \
+                    norm_stmt(x.func.value) == 'frags':
+                appended.append(resolve(x.args[0], ge))
+                first = first or st
+            if isinstance(x, (ast.Yield,)) and x.value is not None:
+                appended.append(resolve(x.value, ge))
+                first = first or st
+    local = {k: v for k, v in vals.items() if counts.get(k) == 1}
+    return appended, local, first
+
+
 def return_type_branches(f: FuncInfo) -> Dict[str, List[ast.stmt]]:
     out: Dict[str, List[ast.stmt]] = {}
     for n in walk_own(f.node):
@@ -211,12 +273,19 @@ def exhaustive(ctx, rep, clause):
         raise AnalysisError('FragmentReturnType literal not found')
     sl = lit.slice
     members = [x.value for x in (sl.elts if isinstance(sl, ast.Tuple) else [sl]) if isinstance(x, ast.Constant)]
-    f = program.func(BUILD)
-    handled = set(return_type_branches(f))
+    f = build_func(program)
+    handled = {m_ for m_ in members if return_type_path(f, m_)[0]}
     ob(rep, 'EXH', BUILD, f'handles every member of FragmentReturnType {members}', set(members) <= handled,
        'all members have a branch', f'no branch for {sorted(set(members) - handled)}: such a request silently '
        f'returns an empty list', f.loc(), clause)
-    extra = handled - set(members)
+    tested = set()
+    for n_ in walk_own(f.node):
+        if isinstance(n_, ast.Compare) and norm_stmt(n_.left) == 'return_type':
+            for cmp_ in n_.comparators:
+                for x in ([cmp_] if isinstance(cmp_, ast.Constant) else getattr(cmp_, 'elts', [])):
+                    if isinstance(x, ast.Constant) and isinstance(x.value, str):
+                        tested.add(x.value)
+    extra = tested - set(members)
     ob(rep, 'EXH', BUILD, 'no branch for a value outside the literal', not extra, 'none', f'{sorted(extra)}', f.loc(),
        clause)
 
@@ -375,6 +444,51 @@ def strip_rule(ctx, rep, fq: str, clause: str, by_design=('isotope_mods', 'stati
     return need
 
 
+ALL_MOD_FIELDS = ('isotope_mods', 'static_mods', 'labile_mods', 'unknown_mods', 'nterm_mods', 'cterm_mods',
+                  'internal_mods', 'intervals', 'charge', 'charge_adducts')
+
+
+def shortcut_rule(ctx, rep, fq: str, clause: str):
+    """a return of the per-residue component function that does not go through mass() ignores every modification; it
+    is sound only under guards that exclude every modification field still present on the object (fields popped
+    before are gone; has_mods() covers all)"""
+    from ..guards import dominating_tests, preceding_exits
+    program = ctx.program
+    f = program.func(fq)
+    n = 0
+    for ret in [x for x in walk_own(f.node) if isinstance(x, ast.Return) and x.value is not None]:
+        if any(isinstance(c, ast.Call) and isinstance(c.func, ast.Name) and c.func.id == 'mass' for c in ast.walk(ret.value)):
+            continue
+        cvals = Canon(f.node)
+        rv = cvals.resolve(ret.value)
+        if any(isinstance(c, ast.Call) and isinstance(c.func, ast.Name) and c.func.id == 'mass' for c in ast.walk(rv)):
+            continue
+        n += 1
+        popped = {c.func.attr[len('pop_'):] for c in walk_own(f.node) if isinstance(c, ast.Call) and
+                  isinstance(c.func, ast.Attribute) and c.func.attr.startswith('pop_') and c.lineno < ret.lineno}
+        popped = {('charge' if p == 'charge' else p) for p in popped}
+        remain = [fld for fld in ALL_MOD_FIELDS if fld not in popped]
+        tests = list(dominating_tests(f.node, ret)) + [(t, False) for t in preceding_exits(f.node.body, ret)]
+        mentioned = set()
+        for t, _pol in tests:
+            for x in ast.walk(cvals.resolve(t)):
+                name = x.attr if isinstance(x, ast.Attribute) else None
+                if name is None:
+                    continue
+                if name == 'has_mods':
+                    mentioned |= set(ALL_MOD_FIELDS)
+                for fld in ALL_MOD_FIELDS:
+                    if name in (fld, '_' + fld, 'has_' + fld, 'has_' + fld.rstrip('s')):
+                        mentioned.add(fld)
+        missing = [fld for fld in remain if fld not in mentioned]
+        ob(rep, 'STRIP', fq, f'shortcut `{norm_stmt(ret)[:60]}` is taken only when no modification is left', not missing,
+           f'guards mention {sorted(mentioned)}',
+           f'`{norm_stmt(ret)[:80]}` returns plain residue masses without consulting {missing}: a peptide carrying '
+           f'such modifications gets fragment masses that ignore them (the general path weighs them through mass())',
+           f.loc(ret), clause)
+    return n
+
+
 def short(fq):
     return fq.split(':')[1]
 
@@ -383,6 +497,7 @@ def check(ctx, rep):
     rep.explanation = EXPLANATION
     an, program = ctx.analyzer, ctx.program
     projections(ctx, rep, 'C04a')
+    loss_combinations(ctx, rep, 'C04a')
     loss_sequence(ctx, rep, 'C04a')
     exhaustive(ctx, rep, 'C04b')
     fragmenter_projection(ctx, rep, 'C04c')
@@ -396,6 +511,8 @@ def check(ctx, rep):
     from . import C05
     C05.build_fragments_bindings(ctx, rep, 'C04d')
     series_routing(ctx, rep, 'C04e')
+    from . import C20 as _c20
+    _c20.has_mods_coverage(ctx, rep, 'C04f')
     # R-STRIP applies to whichever function sums mass() over split() pieces
     sites = [f for f in program.all_functions() if f.module.name == FR and
              any(isinstance(n, ast.Call) and isinstance(n.func, ast.Attribute) and n.func.attr == 'split' and not n.args
@@ -405,5 +522,6 @@ def check(ctx, rep):
     rep.floor('STRIP', 'functions summing mass() over split() pieces in fragmentation.py', len(sites), 1)
     for f in sites:
         strip_rule(ctx, rep, f.fq, 'C04f')
+        shortcut_rule(ctx, rep, f.fq, 'C04f')
     from .common import memo_rule
     memo_rule(ctx, rep, 'C04g', ('peptacular.fragmentation', 'peptacular.mass_calc'))
